@@ -59,6 +59,8 @@ type ragg struct {
 	fw404      int
 	fw405      int
 	bodyOdd    int
+	preDefault int // evaluations with a scripted status on the response, handled by the default handler
+	preAny     int // evaluations with an error and a scripted status on the response
 	raisedAt   map[string]int
 }
 
@@ -81,6 +83,8 @@ func (a *ragg) merge(b *ragg) {
 	a.fw404 += b.fw404
 	a.fw405 += b.fw405
 	a.bodyOdd += b.bodyOdd
+	a.preDefault += b.preDefault
+	a.preAny += b.preAny
 	a.flipWithin = a.flipWithin || b.flipWithin
 	for k, v := range b.ids {
 		a.ids[k] += v
@@ -253,11 +257,24 @@ func judgeEval(ts *treeSpec, rq *reqSpec, s *slot, resp *drive.Resp, build int, 
 			want = codeOf(s.raisedErr)
 			ok = status == want
 		}
+		if s.preSet > 0 {
+			a.preDefault++
+		}
 		if !ok {
 			d := base()
 			d["want_status"] = want
-			a.add("C08|status|default-handler|"+kind, fmt.Sprintf("status %d, want %d", status, want), d)
+			sig := "C08|status|default-handler|" + kind
+			if s.preSet > 0 && status == s.plan.PreStatus {
+				// the response carries the status that was lying on it before the error
+				// was returned instead of the error's
+				d["pre_status"] = s.plan.PreStatus
+				sig = "C08|status|default-handler-keeps-earlier-status|" + kind
+			}
+			a.add(sig, fmt.Sprintf("status %d, want %d", status, want), d)
 		}
+	}
+	if s.preSet > 0 {
+		a.preAny++
 	}
 }
 
@@ -432,13 +449,12 @@ func conclude(ts *treeSpec, rq *reqSpec, a *ragg) []finding {
 	// Two mounted apps with the same full mount path share one slot in fiber's path-keyed app
 	// list (one shadows the other): a separate root cause, named in the class.
 	if bestClass != "" {
-		seen := map[string]bool{}
 		for i := 1; i < len(ts.Apps); i++ {
-			if seen[ts.Apps[i].Full] {
+			// a sub-app mounted at "/" inside a sub-app that is itself mounted at "/"
+			if a := &ts.Apps[i]; a.Rel == "/" && a.Parent > 0 && ts.Apps[a.Parent].Rel == "/" {
 				bestClass = "duplicate-mount-path:" + bestClass
 				break
 			}
-			seen[ts.Apps[i].Full] = true
 		}
 	}
 	extra := map[string]any{"expected_handler": expName, "observed_handlers": obs, "wrong_handler_classes": classes,
@@ -681,6 +697,8 @@ func (rn *runner) judgeTree(c *ev.Case, ts *treeSpec, reqs []reqSpec) map[string
 		e.Stat("framework_404_delivered", int64(a.fw404))
 		e.Stat("framework_405_delivered", int64(a.fw405))
 		e.Stat("recording_body_overwritten", int64(a.bodyOdd))
+		e.Stat("errors_with_earlier_status_on_response", int64(a.preAny))
+		e.Stat("errors_with_earlier_status_default_handler", int64(a.preDefault))
 		var keys []string
 		for k := range a.raisedAt {
 			keys = append(keys, k)
@@ -776,6 +794,15 @@ func run(e *ev.Env) {
 		if ts.MixedCase {
 			e.Stat("trees_mixed_case_prefixes", 1)
 		}
+		if ts.StartAt >= 0 {
+			e.Stat("trees_started_during_construction", 1)
+		}
+		for i := 1; i < len(ts.Apps); i++ {
+			if ts.Apps[i].Rel == "/" && ts.Apps[i].Parent > 0 {
+				e.Stat("trees_slash_mount_inside_sub_app", 1)
+				break
+			}
+		}
 		e.StatMax("max_apps", int64(len(ts.Apps)-1))
 		rn.trees++
 		rn.judgeTree(c, ts, reqs)
@@ -823,7 +850,7 @@ func finish(e *ev.Env, rn *runner) {
 // fixed corpus
 
 func mkTree(root int, apps ...appSpec) *treeSpec {
-	ts := &treeSpec{BottomUp: true, RoutesFirst: true}
+	ts := &treeSpec{BottomUp: true, RoutesFirst: true, StartAt: -1}
 	ts.Apps = append(ts.Apps, appSpec{Parent: -1, Handler: root, Mw: true})
 	for _, a := range apps {
 		p := ts.Apps[a.Parent]
@@ -925,6 +952,55 @@ func corpus(e *ev.Env, rn *runner) {
 			rn.judgeTree(c, ts, reqs)
 		})
 	}
+	// a handler-less app mounted at "/" inside a sub-app that has a handler and sits under a
+	// non-root prefix: same absolute prefix, the enclosing app's handler is the innermost
+	// configured one. Both mounting orders (inner-first and outer-first), and with a handler
+	// on the inner app too.
+	for _, bottomUp := range []bool{true, false} {
+		name := "slash-mount-inside-sub-app-inner-first"
+		if !bottomUp {
+			name = "slash-mount-inside-sub-app-outer-first"
+		}
+		e.Corpus(name, func(c *ev.Case) {
+			for _, inner := range []int{hNone, hOK} {
+				ts := mkTree(hOK, appSpec{Parent: 0, Rel: "/api", Handler: hOK}, appSpec{Parent: 1, Rel: "/", Handler: inner},
+					appSpec{Parent: 2, Rel: "/users", Handler: hNone})
+				ts.BottomUp = bottomUp
+				rn.judgeTree(c, ts, []reqSpec{get("/api/e", teapot(1, posEp)), get("/api/zz", none), get("/api/p", none),
+					get("/api", teapot(0, posMwPre)), get("/api/users/e", teapot(3, posEp)), get("/api/users/zz", none)})
+			}
+		})
+	}
+	// the root app is started (startup process, one request served) before, between and after
+	// the mounts; the handler choice depends on the finished mount structure only
+	e.Corpus("started-during-construction", func(c *ev.Case) {
+		base := mkTree(hOK, appSpec{Parent: 0, Rel: "/api", Handler: hOK, Mw: true}, appSpec{Parent: 0, Rel: "/web", Handler: hFailPlain},
+			appSpec{Parent: 0, Rel: "/adm", Handler: hNone})
+		for at := 0; at <= base.buildSteps(); at++ {
+			ts := cloneTree(base)
+			ts.StartAt = at
+			rn.judgeTree(c, ts, []reqSpec{get("/api/e", teapot(1, posEp)), get("/api/zz", none), get("/web/e", teapot(2, posEp)),
+				get("/web/zz", none), get("/adm/zz", none), get("/zz", none)})
+		}
+	})
+	// a status lying on the response when the error is returned does not change the status the
+	// default handler derives from the error value (nor what a failing handler yields)
+	e.Corpus("earlier-status-on-response", func(c *ev.Case) {
+		ts := mkTree(hNone, appSpec{Parent: 0, Rel: "/api", Handler: hNone, Mw: true}, appSpec{Parent: 0, Rel: "/web", Handler: hFailFiber})
+		var reqs []reqSpec
+		for _, pre := range preStatuses {
+			for where := 1; where <= 3; where++ {
+				with := func(p plan) plan { p.PreStatus, p.PreWhere = pre, where; return p }
+				reqs = append(reqs,
+					get("/api/e", with(plan{App: 1, Pos: posEp, Kind: kFiber, Code: 403})),
+					get("/api/e", with(plan{App: 1, Pos: posMwPost, Kind: kWrapped, Code: 409})),
+					get("/api/e", with(plan{App: 1, Pos: posEp, Kind: kPlain})),
+					get("/api/zz", with(none)), get("/api/p", with(none)), get("/zz", with(none)),
+					get("/web/zz", with(none)))
+			}
+		}
+		rn.judgeTree(c, ts, reqs)
+	})
 	// control: disjoint prefixes, nested mounts, every position, every handler mode
 	e.Corpus("control-disjoint", func(c *ev.Case) {
 		ts := mkTree(hOK,
